@@ -9,12 +9,22 @@ are about.
 
 An expression `e` becomes `def <name> (a0 a1 … : Rat) : Rat|Prop := e'` where `a0, a1, …` are the *leaves* of
 `e` (names, attribute chains, subscripts, generator aggregates) numbered in order of first appearance, which
-makes the translation independent of the names of locals.  The expected number of leaves is checked; if a
-statement cannot be located or has another shape, `generate` raises.
+makes the translation independent of the names of locals.  The expected number of leaves is checked.
+
+Statements are located by ROLE (shape + dataflow), never by the name of a local or by position:
+"the `(a*b)/c` expression of the loop", "the accumulator that is increased by a `max(...)`", "the arm of the
+`if` that contains the `-=`", "the dict the second loop iterates", ...  Before matching, every function is
+normalised: annotated assignments become plain ones, trivially extracted private helpers (`return <expr>`
+methods of the same class) are inlined, guard clauses (`if c: …; continue|return` followed by more
+statements) become `if c: … else: <rest>`.  A branch condition is read off the PATH to the statement that
+plays the role (tests with polarity) and put into negation normal form (`not` pushed through `and`/`or` and into
+comparisons, chained comparisons split), so `if not c: A else: B`, De Morgan rewrites and early `continue`
+give the same Lean term as the original.  If a role cannot be found unambiguously, `generate` raises.
 """
 from __future__ import annotations
 
 import ast
+import copy
 import pathlib
 from fractions import Fraction
 
@@ -122,7 +132,15 @@ def lean_def(name: str, node: ast.expr, arity: int, kind: str, doc: str) -> str:
             f"  unfold {name}; exact inferInstance\n")
 
 
-# --------------------------------------------------------------------------- locating statements
+# --------------------------------------------------------------------------- normalisation
+def _class_of(tree: ast.AST, fn_name: str) -> ast.ClassDef | None:
+    for n in ast.walk(tree):
+        if isinstance(n, ast.ClassDef) and any(isinstance(m, (ast.FunctionDef, ast.AsyncFunctionDef)) and m.name == fn_name
+                                               for m in n.body):
+            return n
+    return None
+
+
 def _func(tree: ast.AST, name: str) -> ast.FunctionDef:
     for n in ast.walk(tree):
         if isinstance(n, (ast.FunctionDef, ast.AsyncFunctionDef)) and n.name == name:
@@ -130,45 +148,175 @@ def _func(tree: ast.AST, name: str) -> ast.FunctionDef:
     raise Bad(f"function {name} not found")
 
 
-def _assigns(fn: ast.AST) -> list[ast.stmt]:
-    return [n for n in ast.walk(fn) if isinstance(n, (ast.Assign, ast.AugAssign, ast.AnnAssign))]
+def _no_doc(body: list[ast.stmt]) -> list[ast.stmt]:
+    return [s for s in body if not (isinstance(s, ast.Expr) and isinstance(s.value, ast.Constant)
+                                    and isinstance(s.value.value, str))]
 
 
-def _target_src(s: ast.stmt) -> str:
+class _Subst(ast.NodeTransformer):
+    def __init__(self, m: dict[str, ast.expr]):
+        self.m = m
+
+    def visit_Name(self, node: ast.Name) -> ast.AST:  # noqa: N802
+        if node.id in self.m and isinstance(node.ctx, ast.Load):
+            return copy.deepcopy(self.m[node.id])
+        return node
+
+
+class _InlineHelpers(ast.NodeTransformer):
+    """`self._helper(a, b)` -> body expression of a same-class method that only returns an expression."""
+
+    def __init__(self, cls: ast.ClassDef | None):
+        self.helpers: dict[str, ast.FunctionDef] = {}
+        for m in (cls.body if cls is not None else []):
+            if isinstance(m, ast.FunctionDef):
+                body = _no_doc(m.body)
+                if len(body) == 1 and isinstance(body[0], ast.Return) and body[0].value is not None \
+                        and not m.args.vararg and not m.args.kwarg and not m.args.kwonlyargs:
+                    self.helpers[m.name] = m
+
+    def visit_Call(self, node: ast.Call) -> ast.AST:  # noqa: N802
+        self.generic_visit(node)
+        f = node.func
+        if isinstance(f, ast.Attribute) and isinstance(f.value, ast.Name) and f.value.id == "self" and f.attr in self.helpers:
+            m = self.helpers[f.attr]
+            params = [a.arg for a in m.args.args][1:]
+            if node.keywords or len(node.args) != len(params):
+                return node
+            body = _no_doc(m.body)[0]
+            expr = copy.deepcopy(body.value)  # type: ignore[attr-defined]
+            return _Subst(dict(zip(params, node.args))).visit(expr)
+        return node
+
+
+def _ends_block(stmts: list[ast.stmt]) -> bool:
+    return bool(stmts) and isinstance(stmts[-1], (ast.Continue, ast.Return, ast.Break, ast.Raise))
+
+
+def _norm_block(stmts: list[ast.stmt]) -> list[ast.stmt]:
+    """AnnAssign -> Assign; guard clauses -> if/else; recursively."""
+    out: list[ast.stmt] = []
+    stmts = _no_doc(stmts)
+    for i, s in enumerate(stmts):
+        if isinstance(s, ast.AnnAssign):
+            if s.value is None:
+                continue
+            s = ast.copy_location(ast.Assign(targets=[s.target], value=s.value), s)
+        if isinstance(s, ast.If):
+            body, orelse = _norm_block(s.body), _norm_block(s.orelse)
+            rest = stmts[i + 1:]
+            if rest and _ends_block(body) and not _ends_block(orelse):
+                out.append(ast.copy_location(ast.If(test=s.test, body=body, orelse=orelse + _norm_block(rest)), s))
+                return out
+            if rest and orelse and _ends_block(orelse) and not _ends_block(body):
+                out.append(ast.copy_location(ast.If(test=s.test, body=body + _norm_block(rest), orelse=orelse), s))
+                return out
+            out.append(ast.copy_location(ast.If(test=s.test, body=body, orelse=orelse), s))
+        elif isinstance(s, (ast.For, ast.While)):
+            t = copy.copy(s)
+            t.body = _norm_block(s.body)
+            t.orelse = _norm_block(s.orelse)
+            out.append(t)
+        else:
+            out.append(s)
+    return out
+
+
+def _norm_func(tree: ast.AST, name: str) -> ast.FunctionDef:
+    fn = copy.deepcopy(_func(tree, name))
+    fn = _InlineHelpers(_class_of(tree, name)).visit(fn)
+    fn.body = _norm_block(fn.body)
+    ast.fix_missing_locations(fn)
+    return fn
+
+
+# --------------------------------------------------------------------------- conditions
+_FLIP = {ast.Lt: ast.GtE, ast.LtE: ast.Gt, ast.Gt: ast.LtE, ast.GtE: ast.Lt, ast.Eq: ast.NotEq, ast.NotEq: ast.Eq}
+
+
+def nnf(e: ast.expr, neg: bool = False) -> ast.expr:
+    """Negation normal form; chained comparisons are split into conjunctions."""
+    if isinstance(e, ast.UnaryOp) and isinstance(e.op, ast.Not):
+        return nnf(e.operand, not neg)
+    if isinstance(e, ast.BoolOp):
+        op = e.op
+        if neg:
+            op = ast.Or() if isinstance(e.op, ast.And) else ast.And()
+        return ast.BoolOp(op=op, values=[nnf(v, neg) for v in e.values])
+    if isinstance(e, ast.Compare):
+        if len(e.ops) > 1:
+            parts: list[ast.expr] = []
+            left = e.left
+            for op, right in zip(e.ops, e.comparators):
+                parts.append(ast.Compare(left=left, ops=[op], comparators=[right]))
+                left = right
+            return nnf(ast.BoolOp(op=ast.And(), values=parts), neg)
+        if not neg:
+            return e
+        for k, v in _FLIP.items():
+            if isinstance(e.ops[0], k):
+                return ast.Compare(left=e.left, ops=[v()], comparators=e.comparators)
+        raise Bad(f"cannot negate {ast.unparse(e)}")
+    return ast.UnaryOp(op=ast.Not(), operand=e) if neg else e
+
+
+Path = list  # of (test, polarity)
+
+
+def _walk_paths(stmts: list[ast.stmt], path: Path, into_loops: bool = True):
+    """Yield (statement, path) for every statement below `stmts`; path = [(test, polarity)] of the enclosing ifs."""
+    for s in stmts:
+        yield s, path
+        if isinstance(s, ast.If):
+            yield from _walk_paths(s.body, path + [(s.test, True)], into_loops)
+            yield from _walk_paths(s.orelse, path + [(s.test, False)], into_loops)
+        elif isinstance(s, (ast.For, ast.While)) and into_loops:
+            yield from _walk_paths(s.body, path, into_loops)
+
+
+def _cond(path: Path, what: str, last_only: bool = False, negate: bool = False) -> ast.expr:
+    """The condition a path stands for (conjunction of its polarised tests), in negation normal form."""
+    if not path:
+        raise Bad(f"{what}: unconditional")
+    if last_only:
+        path = path[-1:]
+    parts = [t if pol else ast.UnaryOp(op=ast.Not(), operand=t) for t, pol in path]
+    e: ast.expr = parts[0] if len(parts) == 1 else ast.BoolOp(op=ast.And(), values=parts)
+    return nnf(e, negate)
+
+
+def _one(xs: list, what: str):
+    if len(xs) != 1:
+        raise Bad(f"{what}: expected exactly one candidate, found {len(xs)}")
+    return xs[0]
+
+
+def _contains(n: ast.AST, pred) -> bool:
+    return any(pred(c) for c in ast.walk(n))
+
+
+def _is_call(n: ast.AST, name: str, nargs: int | None = None) -> bool:
+    return isinstance(n, ast.Call) and ast.unparse(n.func) == name and (nargs is None or len(n.args) == nargs)
+
+
+def _stmts_in(scope: list[ast.stmt], into_loops: bool = True) -> list[tuple[ast.stmt, Path]]:
+    return list(_walk_paths(scope, [], into_loops))
+
+
+def _tsrc(s: ast.stmt) -> str:
     if isinstance(s, ast.Assign):
         if len(s.targets) != 1:
-            raise Bad("multiple targets")
+            raise Bad("multiple assignment targets")
         return ast.unparse(s.targets[0])
     return ast.unparse(s.target)  # type: ignore[attr-defined]
 
 
-def _value_of(scope: ast.AST, target: str, aug: bool | None = None, nth: int = 0) -> ast.expr:
-    """Right-hand side of the nth statement (source order) in `scope` assigning to `target`."""
-    hits = []
-    for s in _assigns(scope):
-        if _target_src(s) == target and s.value is not None:  # type: ignore[attr-defined]
-            if aug is None or isinstance(s, ast.AugAssign) == aug:
-                hits.append(s)
-    hits.sort(key=lambda s: (s.lineno, s.col_offset))
-    if len(hits) <= nth:
-        raise Bad(f"assignment to `{target}` #{nth} not found")
-    return hits[nth].value  # type: ignore[attr-defined]
-
-
-def _loops(fn: ast.AST, kind: type) -> list[ast.stmt]:
-    out = [n for n in ast.walk(fn) if isinstance(n, kind)]
-    out.sort(key=lambda s: (s.lineno, s.col_offset))
-    return out  # type: ignore[return-value]
-
-
-def _ifs(scope: ast.AST) -> list[ast.If]:
-    out = [n for n in ast.walk(scope) if isinstance(n, ast.If)]
-    out.sort(key=lambda s: (s.lineno, s.col_offset))
-    return out
-
-
-def _contains_call(n: ast.AST, callee: str) -> bool:
-    return any(isinstance(c, ast.Call) and ast.unparse(c.func) == callee for c in ast.walk(n))
+def _target(s: ast.stmt) -> ast.expr:
+    if isinstance(s, ast.Assign):
+        if len(s.targets) != 1:
+            raise Bad("multiple assignment targets")
+        return s.targets[0]
+    return s.target  # type: ignore[attr-defined]
 
 
 def _kwarg(call: ast.Call, name: str) -> ast.expr:
@@ -182,6 +330,17 @@ def _strip_from_watts(e: ast.expr) -> ast.expr:
     if isinstance(e, ast.Call) and ast.unparse(e.func) == "Power.from_watts" and len(e.args) == 1:
         return e.args[0]
     raise Bad(f"expected Power.from_watts(...), got {ast.unparse(e)[:60]}")
+
+
+def _aug_as_binop(s: ast.AugAssign) -> ast.expr:
+    return ast.BinOp(left=s.target, op=s.op, right=s.value)  # type: ignore[arg-type]
+
+
+def _base_name(e: ast.expr) -> str | None:
+    """`d[k]` -> 'd', `d[k].attr` -> 'd', `x.attr` -> 'x'."""
+    while isinstance(e, (ast.Subscript, ast.Attribute)):
+        e = e.value
+    return e.id if isinstance(e, ast.Name) else None
 
 
 # --------------------------------------------------------------------------- generate
@@ -212,25 +371,27 @@ def generate(repo: pathlib.Path) -> str:
 
     # ---- _math.is_close_to_zero
     f = _func(mth, "is_close_to_zero")
-    args = [a.arg for a in f.args.args]
-    if args != ["value", "abs_tol"] or len(f.args.defaults) != 1 or not isinstance(f.args.defaults[0], ast.Constant):
+    if len(f.args.args) != 2 or len(f.args.defaults) != 1 or not isinstance(f.args.defaults[0], ast.Constant):
         raise Bad("is_close_to_zero signature changed")
+    p_val, p_tol = (a.arg for a in f.args.args)
     tol = Fraction(repr(f.args.defaults[0].value))
-    body = [s for s in f.body if not (isinstance(s, ast.Expr) and isinstance(s.value, ast.Constant))]
-    zero = None
+    consts: dict[str, ast.expr] = {}
     ret = None
-    for s in body:
-        if isinstance(s, (ast.Assign, ast.AnnAssign)) and _target_src(s) == "zero":
-            zero = s.value
+    for s in _norm_block(f.body):
+        if isinstance(s, ast.Assign) and isinstance(s.targets[0], ast.Name):
+            consts[s.targets[0].id] = s.value
         elif isinstance(s, ast.Return):
             ret = s.value
         else:
             raise Bad("is_close_to_zero body changed")
-    if not (isinstance(zero, ast.Constant) and zero.value == 0.0):
-        raise Bad("is_close_to_zero: zero is not 0.0")
-    if not (isinstance(ret, ast.Call) and ast.unparse(ret.func) == "math.isclose" and not ret.args
-            and {k.arg: ast.unparse(k.value) for k in ret.keywords} == {"a": "value", "b": "zero", "abs_tol": "abs_tol"}):
-        raise Bad("is_close_to_zero no longer returns math.isclose(a=value, b=zero, abs_tol=abs_tol)")
+    if not (isinstance(ret, ast.Call) and ast.unparse(ret.func) == "math.isclose"):
+        raise Bad("is_close_to_zero no longer returns math.isclose(...)")
+    ret = _Subst(consts).visit(copy.deepcopy(ret))
+    args = {k.arg: ast.unparse(k.value) for k in ret.keywords}
+    for i, a in enumerate(ret.args):
+        args[["a", "b"][i]] = ast.unparse(a)
+    if args != {"a": p_val, "b": "0.0", "abs_tol": p_tol}:
+        raise Bad(f"is_close_to_zero: unexpected math.isclose arguments {args}")
     out.append(f"/-- default `abs_tol` of `_math.is_close_to_zero` -/\n"
                f"def closeTol : Rat := ({tol.numerator} : Rat) / {tol.denominator}\n")
     out.append("/-- `_math.is_close_to_zero(value)` = `math.isclose(a=value, b=0.0, abs_tol=closeTol)` -/\n"
@@ -243,291 +404,330 @@ def generate(repo: pathlib.Path) -> str:
     def add(name: str, node: ast.expr, arity: int, kind: str = "val") -> None:
         out.append(lean_def(name, node, arity, kind, ast.unparse(node)))
 
-    # ---- available SoC
-    fc = _func(algo, "_distribute_consume_power")
-    add("availConsume", _value_of(fc, "available_soc[battery.component_id]"), 2)
-    fs = _func(algo, "_distribute_supply_power")
-    add("availSupply", _value_of(fs, "available_soc[battery.component_id]"), 2)
-    # sign handling of the supply side: `-1 * power_w` in, `*= -1` out
-    call = None
-    for n in ast.walk(fs):
-        if isinstance(n, ast.Call) and ast.unparse(n.func) == "self._distribute_power":
-            call = n
-    if call is None or len(call.args) != 5:
-        raise Bad("_distribute_supply_power: call of self._distribute_power not found")
-    add("supplyPowerIn", call.args[1], 1)
-    augs = [s for s in _assigns(fs) if isinstance(s, ast.AugAssign)]
-    if len(augs) != 2 or not all(isinstance(s.op, ast.Mult) for s in augs):
-        raise Bad("_distribute_supply_power: expected two `*=` statements")
-    for s, nm in zip(sorted(augs, key=lambda s: s.lineno), ["supplySetpointOut", "supplyRemainingOut"]):
-        add(nm, ast.BinOp(left=s.target, op=ast.Mult(), right=s.value), 1)  # type: ignore[arg-type]
-    fcall = None
-    for n in ast.walk(fc):
-        if isinstance(n, ast.Call) and ast.unparse(n.func) == "self._distribute_power":
-            fcall = n
-    if fcall is None or len(fcall.args) != 5 or not isinstance(fcall.args[1], ast.Name):
-        raise Bad("_distribute_consume_power: expected self._distribute_power(components, power_w, …)")
+    def is_max0_sub(n: ast.AST) -> bool:
+        return (_is_call(n, "max", 2) and isinstance(n.args[0], ast.Constant)  # type: ignore[attr-defined]
+                and isinstance(n.args[1], ast.BinOp) and isinstance(n.args[1].op, ast.Sub))  # type: ignore[attr-defined]
 
-    # ---- _inclusion_exclusion_bounds
-    fb = _func(algo, "_inclusion_exclusion_bounds")
+    # ---- available SoC: the `max(<const>, x - y)` of each side
+    fc = _norm_func(algo, "_distribute_consume_power")
+    add("availConsume", _one([n for n in ast.walk(fc) if is_max0_sub(n)], "consume: max(0.0, a - b)"), 2)
+    fs = _norm_func(algo, "_distribute_supply_power")
+    add("availSupply", _one([n for n in ast.walk(fs) if is_max0_sub(n)], "supply: max(0.0, a - b)"), 2)
+    # sign handling of the supply side: the power handed to `_distribute_power`, `*=` on set-points and remainder
+    call = _one([n for n in ast.walk(fs) if _is_call(n, "self._distribute_power", 5)], "supply: self._distribute_power(...)")
+    add("supplyPowerIn", call.args[1], 1)
+    augs = [s for s, _ in _stmts_in(fs.body) if isinstance(s, ast.AugAssign) and isinstance(s.op, ast.Mult)]
+    add("supplySetpointOut", _aug_as_binop(_one([s for s in augs if isinstance(s.target, ast.Subscript)],
+                                                "supply: `<set-point>[...] *= …`")), 1)
+    add("supplyRemainingOut", _aug_as_binop(_one([s for s in augs if isinstance(s.target, ast.Attribute)],
+                                                 "supply: `<result>.remaining_power *= …`")), 1)
+    fcall = _one([n for n in ast.walk(fc) if _is_call(n, "self._distribute_power", 5)], "consume: self._distribute_power(...)")
+    if not (isinstance(fcall.args[1], ast.Name) and fcall.args[1].id == fc.args.args[1].arg):
+        raise Bad("_distribute_consume_power no longer passes its power through unchanged")
+
+    # ---- _inclusion_exclusion_bounds: roles from the returned tuple, the inner loop variable and the `supply` flag
+    fb = _norm_func(algo, "_inclusion_exclusion_bounds")
+    if len(fb.args.args) != 3:
+        raise Bad("_inclusion_exclusion_bounds signature changed")
+    flag = fb.args.args[2].arg
+    rets = [s for s, _ in _stmts_in(fb.body) if isinstance(s, ast.Return)]
+    rv = _one(rets, "_inclusion_exclusion_bounds: return").value
+    if not (isinstance(rv, ast.Tuple) and len(rv.elts) == 2 and all(isinstance(e, ast.Name) for e in rv.elts)):
+        raise Bad("_inclusion_exclusion_bounds no longer returns (incl, excl)")
+    dict_role = {rv.elts[0].id: "Incl", rv.elts[1].id: "Excl"}  # type: ignore[attr-defined]
+    fors = [s for s, _ in _stmts_in(fb.body) if isinstance(s, ast.For)]
+    inner = [l for l in fors if any(l in ast.walk(o) and l is not o for o in fors)]
+    inv_var = _one(inner, "_inclusion_exclusion_bounds: inner loop").target
+    if not isinstance(inv_var, ast.Name):
+        raise Bad("_inclusion_exclusion_bounds: inner loop variable")
     found: dict[str, ast.expr] = {}
-    for iff in _ifs(fb):
-        if ast.unparse(iff.test) != "supply":
-            raise Bad("_inclusion_exclusion_bounds: unexpected condition")
-        for side, stmts in (("Supply", iff.body), ("Consume", iff.orelse)):
-            for s in stmts:
-                if not isinstance(s, ast.Assign):
-                    raise Bad("_inclusion_exclusion_bounds: unexpected statement")
-                t = _target_src(s)
-                role = {"excl_bounds[battery.component_id]": "batExcl", "incl_bounds[battery.component_id]": "batIncl",
-                        "excl_bounds[inverter.component_id]": "invExcl", "incl_bounds[inverter.component_id]": "invIncl"}.get(t)
-                if role is None:
-                    raise Bad(f"_inclusion_exclusion_bounds: unexpected target {t}")
-                if role + side in found:
-                    raise Bad(f"_inclusion_exclusion_bounds: {role+side} assigned twice")
-                found[role + side] = s.value
+    for s, path in _stmts_in(fb.body):
+        if not (isinstance(s, ast.Assign) and isinstance(s.targets[0], ast.Subscript)):
+            continue
+        t = s.targets[0]
+        d = _base_name(t)
+        if d not in dict_role:
+            continue
+        side = None
+        for test, pol in path:
+            if ast.unparse(nnf(test)) == flag:
+                side = "Supply" if pol else "Consume"
+            elif ast.unparse(nnf(test, True)) == flag:
+                side = "Consume" if pol else "Supply"
+            else:
+                raise Bad(f"_inclusion_exclusion_bounds: unexpected condition {ast.unparse(test)}")
+        if side is None:
+            raise Bad("_inclusion_exclusion_bounds: assignment outside the supply/consume branches")
+        who = "inv" if _base_name(t.slice) == inv_var.id else "bat"
+        key = who + dict_role[d] + side
+        if key in found:
+            raise Bad(f"_inclusion_exclusion_bounds: {key} assigned twice")
+        found[key] = s.value
     for side in ("Consume", "Supply"):
-        add("batExcl" + side, found.get("batExcl" + side) or _raise("batExcl" + side), 1)
-        add("batIncl" + side, found.get("batIncl" + side) or _raise("batIncl" + side), 1)
-        add("invExcl" + side, found.get("invExcl" + side) or _raise("invExcl" + side), 1)
-        add("invIncl" + side, found.get("invIncl" + side) or _raise("invIncl" + side), 2)
+        for who, role, ar in (("bat", "Excl", 1), ("bat", "Incl", 1), ("inv", "Excl", 1), ("inv", "Incl", 2)):
+            k = who + role + side
+            if k not in found:
+                raise Bad(f"_inclusion_exclusion_bounds: {k} not found")
+            add(k, found[k], ar)
 
     # ---- _compute_battery_availability_ratio
-    fr = _func(algo, "_compute_battery_availability_ratio")
-    add("capRatio", _value_of(fr, "capacity_ratio"), 2)
-    sf = _value_of(fr, "soc_factor")
-    if not (isinstance(sf, ast.Call) and ast.unparse(sf.func) == "pow" and len(sf.args) == 2
-            and ast.unparse(sf.args[1]) == "self._distributor_exponent"):
+    fr = _norm_func(algo, "_compute_battery_availability_ratio")
+    stm = _stmts_in(fr.body)
+
+    def local_def(name: str, scope_stmts) -> ast.expr:
+        return _one([s for s, _ in scope_stmts if isinstance(s, ast.Assign) and _tsrc(s) == name], f"definition of {name}").value
+
+    ar_call = _one([n for n in ast.walk(fr) if _is_call(n, "AvailabilityRatio")], "AvailabilityRatio(...)")
+    if len(ar_call.args) != 3 or not isinstance(ar_call.args[2], ast.Name):
+        raise Bad("AvailabilityRatio(battery_id, inverter_ids, ratio, min_power=…) changed")
+    ratio_e = local_def(ar_call.args[2].id, stm)
+    if not (isinstance(ratio_e, ast.BinOp) and isinstance(ratio_e.op, ast.Mult)
+            and all(isinstance(x, ast.Name) for x in (ratio_e.left, ratio_e.right))):
+        raise Bad("ratio is no longer <capacity ratio> * <soc factor>")
+    defs = {x.id: local_def(x.id, stm) for x in (ratio_e.left, ratio_e.right)}  # type: ignore[attr-defined]
+    cap_v = [k for k, v in defs.items() if isinstance(v, ast.BinOp) and isinstance(v.op, ast.Div)]
+    soc_v = [k for k, v in defs.items() if _is_call(v, "pow", 2)]
+    if len(cap_v) != 1 or len(soc_v) != 1:
+        raise Bad("ratio: operands are no longer a quotient and a pow(...)")
+    add("capRatio", defs[cap_v[0]], 2)
+    if ast.unparse(defs[soc_v[0]].args[1]) != "self._distributor_exponent":  # type: ignore[attr-defined]
         raise Bad("soc_factor is no longer pow(<available soc>, self._distributor_exponent)")
     out.append("/-- `soc_factor = pow(available_soc[...], self._distributor_exponent)` (natural exponents; "
                "`pow(0.0, 0) = 1`) -/\ndef socFactor (a : Rat) (e : Nat) : Rat := a ^ e\n")
-    add("ratioOf", _value_of(fr, "ratio"), 2)
-    mp = None
-    for n in ast.walk(fr):
-        if isinstance(n, ast.Call) and ast.unparse(n.func) == "AvailabilityRatio":
-            mp = _kwarg(n, "min_power")
-    if mp is None:
-        raise Bad("AvailabilityRatio(min_power=…) not found")
-    add("minPower", mp, 2)
-    # the sort of the ratio list
-    sort = None
-    for n in ast.walk(fr):
-        if isinstance(n, ast.Call) and ast.unparse(n.func) == "battery_availability_ratio.sort":
-            sort = n
-    if sort is None:
-        raise Bad("battery_availability_ratio.sort(...) not found")
+    # parameters of ratioOf in the order (capacity ratio, soc factor), whatever the order of the factors
+    ordered = ast.BinOp(left=ast.Name(id=cap_v[0]), op=ast.Mult(), right=ast.Name(id=soc_v[0])) \
+        if ratio_e.left.id == cap_v[0] else ratio_e  # type: ignore[attr-defined]
+    out.append(lean_def("ratioOf", ordered, 2, "val", ast.unparse(ratio_e))
+               if ratio_e.left.id == cap_v[0] else  # type: ignore[attr-defined]
+               lean_def("ratioOf", ast.BinOp(left=ast.Name(id=soc_v[0]), op=ast.Mult(), right=ast.Name(id=cap_v[0])), 2,
+                        "val", ast.unparse(ratio_e)).replace("(a0 : Rat) (a1 : Rat)", "(a1 : Rat) (a0 : Rat)"))
+    add("minPower", _kwarg(ar_call, "min_power"), 2)
+    sorts = [n for n in ast.walk(fr) if isinstance(n, ast.Call) and isinstance(n.func, ast.Attribute) and n.func.attr == "sort"
+             and any(k.arg == "key" and isinstance(k.value, ast.Lambda) and isinstance(k.value.body, ast.Tuple)
+                     and all(isinstance(e, ast.Attribute) for e in k.value.body.elts) for k in n.keywords)]
+    sort = _one(sorts, "sort of the availability ratios")
     key = _kwarg(sort, "key")
-    rev = _kwarg(sort, "reverse")
+    rev = _kwarg(sort, "reverse") if any(k.arg == "reverse" for k in sort.keywords) else ast.Constant(value=False)
     if not (isinstance(rev, ast.Constant) and isinstance(rev.value, bool)):
         raise Bad("sort: reverse is not a literal")
-    if not (isinstance(key, ast.Lambda) and len(key.args.args) == 1 and isinstance(key.body, ast.Tuple)):
-        raise Bad("sort: key is not a lambda returning a tuple")
-    arg = key.args.args[0].arg
+    arg = key.args.args[0].arg  # type: ignore[attr-defined]
     fields = []
-    for e in key.body.elts:
-        if not (isinstance(e, ast.Attribute) and isinstance(e.value, ast.Name) and e.value.id == arg
-                and e.attr in ("min_power", "ratio")):
+    for e in key.body.elts:  # type: ignore[attr-defined]
+        if not (isinstance(e.value, ast.Name) and e.value.id == arg and e.attr in ("min_power", "ratio")):
             raise Bad(f"sort: unsupported key component {ast.unparse(e)}")
         fields.append({"min_power": "m", "ratio": "r"}[e.attr])
-    if not fields:
-        raise Bad("sort: empty key")
     lex = "False"
     for fld in reversed(fields):
         lex = f"{fld}1 < {fld}2 ∨ ({fld}1 = {fld}2 ∧ ({lex}))"
-    out.append(f"/-- `battery_availability_ratio.sort(key={ast.unparse(key)}, reverse={rev.value})`: strict order of the keys -/\n"
+    out.append(f"/-- `<ratios>.sort(key=(" + ", ".join("min_power" if x == "m" else "ratio" for x in fields) +
+               f"), reverse={rev.value})`: strict order of the keys -/\n"
                f"def sortKeyLt (m1 r1 m2 r2 : Rat) : Prop :=\n  {lex}\n"
                "instance {m1 r1 m2 r2 : Rat} : Decidable (sortKeyLt m1 r1 m2 r2) := by unfold sortKeyLt; exact inferInstance\n"
                f"def sortReverse : Bool := {'true' if rev.value else 'false'}\n")
 
     # ---- _distribute_power
-    fd = _func(algo, "_distribute_power")
-    fors = _loops(fd, ast.For)
-    # the reservation loop is the `for` that assigns `calculated_power`
-    res = [l for l in fors if any(_target_src(s) == "calculated_power" for s in _assigns(l))]
-    if len(res) != 1:
-        raise Bad("reservation loop not found")
-    loop = res[0]
-    first_if = [s for s in loop.body if isinstance(s, ast.If)]  # type: ignore[attr-defined]
-    if len(first_if) != 2:
-        raise Bad("reservation loop: expected the tail test and the three-way branch")
-    tail_if, branch = first_if
-    if not any(isinstance(s, ast.Continue) for s in tail_if.body):
-        raise Bad("reservation loop: first `if` no longer `continue`s")
-    add("tailCond", tail_if.test, 1, "prop")
-    tvals = {ast.unparse(k): ast.unparse(v) for c in ast.walk(tail_if) if isinstance(c, ast.Call)
-             and ast.unparse(c.func) == "_Power" for k, v in [(ast.Name(id=kw.arg), kw.value) for kw in c.keywords]}
-    if tvals != {"upper_bound": "0.0", "power": "0.0"}:
+    fd = _norm_func(algo, "_distribute_power")
+    if len(fd.args.args) != 6:
+        raise Bad("_distribute_power signature changed")
+    p_power = fd.args.args[2].arg
+    all_fors = [s for s, _ in _stmts_in(fd.body) if isinstance(s, ast.For)]
+
+    def is_share(n: ast.AST) -> bool:
+        return (isinstance(n, ast.BinOp) and isinstance(n.op, ast.Div) and isinstance(n.left, ast.BinOp)
+                and isinstance(n.left.op, ast.Mult))
+
+    loop = _one([l for l in all_fors if _contains(l, is_share)], "reservation loop")
+    dloop = _one([l for l in all_fors if _contains(l, lambda n: isinstance(n, ast.While))], "deficit loop")
+    ls = _stmts_in(loop.body)
+    share_s, share_path = _one([(s, p) for s, p in ls if isinstance(s, ast.Assign) and is_share(s.value)], "share assignment")
+    share_e = share_s.value
+    if not (isinstance(share_e.left.left, ast.Name) and isinstance(share_e.right, ast.Name)  # type: ignore[attr-defined]
+            and isinstance(share_s.targets[0], ast.Name)):
+        raise Bad("share: expected <to distribute> * <entry ratio> / <running ratio>")
+    v_ptd, v_ratio, v_share = share_e.left.left.id, share_e.right.id, share_s.targets[0].id  # type: ignore[attr-defined]
+    # tail branch: the arm that does not compute the share stores _Power(0.0, 0.0)
+    add("tailCond", _cond(share_path, "tail test", negate=True), 1, "prop")
+    tail_calls = [c for s, p in ls if p and p[0][0] is share_path[0][0] and p[0][1] != share_path[0][1]
+                  for c in ast.walk(s) if _is_call(c, "_Power")]
+    tc = _one(tail_calls, "tail branch: _Power(...)")
+    if {k.arg: ast.unparse(k.value) for k in tc.keywords} != {"upper_bound": "0.0", "power": "0.0"}:
         raise Bad("tail branch no longer stores _Power(upper_bound=0.0, power=0.0)")
-    add("powerToDistribute", _value_of(loop, "power_to_distribute"), 2)
-    add("calcPower", _value_of(loop, "calculated_power"), 3)
-    add("reserveInc", _value_of(loop, "reserved_power", aug=True), 2)
-    add("usedInc", _value_of(loop, "used_ratio", aug=True), 1)
-    add("nextRatio", _value_of(loop, "ratio", aug=False), 2)
-    add("inclBound", _value_of(loop, "incl_bound"), 2)
-    add("distributedInc", _value_of(loop, "distributed_power", aug=True), 1)
-    # three-way branch
-    if len(branch.orelse) != 1 or not isinstance(branch.orelse[0], ast.If) or not branch.orelse[0].orelse:
-        raise Bad("three-way branch: expected if / elif / else")
-    b2 = branch.orelse[0]
-
-    def single(stmts: list[ast.stmt], which: str) -> ast.expr:
-        if len(stmts) != 1 or not isinstance(stmts[0], ast.Assign):
-            raise Bad("three-way branch: expected one assignment per arm")
-        t = _target_src(stmts[0])
-        if not t.startswith(which + "["):
-            raise Bad(f"three-way branch: expected an assignment to {which}[…], got {t}")
-        return stmts[0].value
-
-    add("overIncl", branch.test, 2, "prop")
-    add("excessOver", single(branch.body, "excess_reserved"), 2)
-    add("underMin", b2.test, 2, "prop")
-    add("deficitOf", single(b2.body, "deficits"), 2)
-    add("excessIn", single(b2.orelse, "excess_reserved"), 2)
-    stored = [c for s in loop.body[loop.body.index(branch):] for c in ast.walk(s)  # type: ignore[attr-defined]
-              if isinstance(c, ast.Call) and ast.unparse(c.func) == "_Power"]
-    if len(stored) != 1:
-        raise Bad("reservation loop: expected one _Power(...) after the branch")
-    add("entryUpper", _kwarg(stored[0], "upper_bound"), 1)
-    add("entryPower", _kwarg(stored[0], "power"), 1)
+    main = [(s, p[len(share_path):]) for s, p in ls if p[:len(share_path)] == share_path]  # statements of the main arm
+    add("powerToDistribute", _one([s for s, p in main if isinstance(s, ast.Assign) and _tsrc(s) == v_ptd and not p],
+                                  "power to distribute").value, 2)
+    add("calcPower", share_e, 3)
+    augs = [s for s, p in main if isinstance(s, ast.AugAssign) and isinstance(s.op, ast.Add) and not p]
+    res_s = _one([s for s in augs if _is_call(s.value, "max", 2)], "reserved += max(...)")
+    add("reserveInc", res_s.value, 2)
+    next_s = _one([s for s, p in main if isinstance(s, ast.Assign) and _tsrc(s) == v_ratio and not p], "running ratio update")
+    used_s = _one([s for s in augs if s is not res_s and isinstance(s.target, ast.Name)
+                   and _contains(next_s.value, lambda n: isinstance(n, ast.Name) and n.id == s.target.id)], "used ratio +=")
+    add("usedInc", used_s.value, 1)
+    add("nextRatio", next_s.value, 2)
+    incl_s = _one([s for s, p in main if isinstance(s, ast.Assign) and _is_call(s.value, "min", 2) and not p], "inclusion bound")
+    add("inclBound", incl_s.value, 2)
+    v_incl = _tsrc(incl_s)
+    dist_s = _one([s for s in augs if s is not res_s and s is not used_s], "distributed += min power")
+    add("distributedInc", dist_s.value, 1)
+    v_dist = _tsrc(dist_s)
+    # three-way branch: arms are single subscript assignments `<dict>[...] = x - y`
+    if not (isinstance(dloop.iter, ast.Call) and isinstance(dloop.iter.func, ast.Attribute) and dloop.iter.func.attr == "items"
+            and isinstance(dloop.iter.func.value, ast.Name) and isinstance(dloop.target, ast.Tuple) and len(dloop.target.elts) == 2
+            and all(isinstance(e, ast.Name) for e in dloop.target.elts)):
+        raise Bad("deficit loop: expected `for <key>, <deficit> in <deficits>.items()`")
+    d_deficits = dloop.iter.func.value.id
+    v_deficit = dloop.target.elts[1].id  # type: ignore[attr-defined]
+    arms = [(s, p) for s, p in main if p and isinstance(s, ast.Assign) and isinstance(s.targets[0], ast.Subscript)
+            and isinstance(s.value, ast.BinOp) and isinstance(s.value.op, ast.Sub) and not _contains(s, lambda n: _is_call(n, "_Power"))]
+    if len(arms) != 3:
+        raise Bad("three-way branch: expected three `<dict>[...] = a - b` arms")
+    over = _one([(s, p) for s, p in arms if _contains(s.value, lambda n: isinstance(n, ast.Name) and n.id == v_incl)], "over-inclusion arm")
+    defi = _one([(s, p) for s, p in arms if _base_name(s.targets[0]) == d_deficits], "deficit arm")
+    inr = _one([(s, p) for s, p in arms if s is not over[0] and s is not defi[0]], "in-range arm")
+    d_excess = _base_name(over[0].targets[0])
+    if _base_name(inr[0].targets[0]) != d_excess or d_excess == d_deficits:
+        raise Bad("three-way branch: excess dict roles")
+    if len(over[1]) != 1 or len(defi[1]) != 2 or len(inr[1]) != 2 or defi[1][0][0] is not over[1][0][0]:
+        raise Bad("three-way branch: the inclusion test must be decided first, then the minimum-power test")
+    add("overIncl", _cond(over[1], "over test"), 2, "prop")
+    add("excessOver", over[0].value, 2)
+    add("underMin", _cond(defi[1], "under test", last_only=True), 2, "prop")
+    add("deficitOf", defi[0].value, 2)
+    add("excessIn", inr[0].value, 2)
+    stored = _one([c for s, p in main if not p for c in ast.walk(s) if _is_call(c, "_Power")], "_Power(...) of the main arm")
+    add("entryUpper", _kwarg(stored, "upper_bound"), 1)
+    add("entryPower", _kwarg(stored, "power"), 1)
 
     # deficit covering
-    whiles = _loops(fd, ast.While)
-    if len(whiles) != 1:
-        raise Bad("expected exactly one while loop")
-    wh = whiles[0]
-    add("coverCond", wh.test, 1, "prop")  # type: ignore[attr-defined]
-    wifs = [s for s in wh.body if isinstance(s, ast.If)]  # type: ignore[attr-defined]
-    if len(wifs) != 3:
-        raise Bad("while body: expected three ifs")
-    if ast.unparse(wifs[0].test) != "not excess_reserved" or not any(isinstance(s, ast.Break) for s in wifs[0].body):
-        raise Bad("while body: `if not excess_reserved: break` changed")
-    lg = _value_of(wh, "largest")
-    if "max(excess_reserved.items(), key=lambda item: item[1])" not in ast.unparse(lg):
-        raise Bad("largest is no longer max(excess_reserved.items(), key=item[1])")
-    if not any(isinstance(s, ast.Break) for s in wifs[1].body):
-        raise Bad("while body: second if no longer breaks")
-    add("largestStop", wifs[1].test, 1, "prop")
-    add("covers", wifs[2].test, 2, "prop")
-    add("coverExcess", ast.BinOp(left=ast.Name(id="excess_reserved[largest.inverter_ids]"), op=ast.Add(),
-                                 right=_value_of(ast.Module(body=wifs[2].body, type_ignores=[]),
-                                                 "excess_reserved[largest.inverter_ids]", aug=True)), 2)
-    add("coverDeficitDone", _value_of(ast.Module(body=wifs[2].body, type_ignores=[]), "deficit"), 0)
-    add("partialDeficit", ast.BinOp(left=ast.Name(id="deficit"), op=ast.Add(),
-                                    right=_value_of(ast.Module(body=wifs[2].orelse, type_ignores=[]), "deficit", aug=True)), 2)
-    add("partialExcess", _value_of(ast.Module(body=wifs[2].orelse, type_ignores=[]),
-                                   "excess_reserved[largest.inverter_ids]", aug=False), 0)
-    # left-over accounting: the `if` following the while in the same loop body
-    dl = [l for l in fors if wh in l.body]  # type: ignore[attr-defined]
-    if len(dl) != 1:
-        raise Bad("deficit loop not found")
-    dbody = dl[0].body  # type: ignore[attr-defined]
-    after = dbody[dbody.index(wh) + 1:]
-    if len(after) != 1 or not isinstance(after[0], ast.If):
-        raise Bad("deficit loop: expected one `if` after the while")
-    adj = after[0]
-    add("adjustCond", adj.test, 1, "prop")
-    add("leftOver", _value_of(adj, "left_over"), 2)
-    inner = [s for s in adj.body if isinstance(s, ast.If)]
-    if len(inner) != 1 or len(inner[0].orelse) != 1 or not isinstance(inner[0].orelse[0], ast.If) or inner[0].orelse[0].orelse:
-        raise Bad("left-over accounting: expected if / elif")
-    i1, i2 = inner[0], inner[0].orelse[0]
-    add("adjFullCond", i1.test, 2, "prop")
-    add("adjFullInc", _value_of(ast.Module(body=i1.body, type_ignores=[]), "distributed_power", aug=True), 1)
-    add("adjPartCond", i2.test, 1, "prop")
-    add("adjPartInc", _value_of(ast.Module(body=i2.body, type_ignores=[]), "distributed_power", aug=True), 1)
+    ds = _stmts_in(dloop.body, into_loops=False)
+    wh = _one([s for s, p in ds if isinstance(s, ast.While) and not p], "while loop")
+    add("coverCond", nnf(wh.test), 1, "prop")
+    ws = _stmts_in(wh.body)
+    breaks = [(s, p) for s, p in ws if isinstance(s, ast.Break)]
+    empty_break = [(s, p) for s, p in breaks if ast.unparse(_cond(p, "break", last_only=True)) == f"not {d_excess}"]
+    _one(empty_break, "`if not <excess dict>: break`")
+    stop = _one([(s, p) for s, p in breaks if (s, p) not in empty_break], "largest-stop break")
+    add("largestStop", _cond(stop[1], "largest stop", last_only=True), 1, "prop")
+    lg = [s for s, p in ws if isinstance(s, ast.Assign) and _contains(s.value, lambda n: _is_call(n, "max"))]
+    if "max(%s.items(), key=lambda item: item[1])" % d_excess not in ast.unparse(_one(lg, "largest").value):
+        raise Bad("largest is no longer max(<excess dict>.items(), key=item[1])")
+    cov_aug = _one([(s, p) for s, p in ws if isinstance(s, ast.AugAssign) and isinstance(s.op, ast.Add)
+                    and isinstance(s.target, ast.Subscript) and _base_name(s.target) == d_excess], "cover: excess[...] += deficit")
+    add("covers", _cond(cov_aug[1], "covers", last_only=True), 2, "prop")
+    cov_arm = [s for s, p in ws if p == cov_aug[1]]
+    par_arm = [s for s, p in ws if p and p[:-1] == cov_aug[1][:-1] and p[-1][0] is cov_aug[1][-1][0] and p[-1][1] != cov_aug[1][-1][1]]
+    add("coverExcess", _aug_as_binop(cov_aug[0]), 2)
+    add("coverDeficitDone", _one([s for s in cov_arm if isinstance(s, ast.Assign) and _tsrc(s) == v_deficit], "cover: deficit = 0").value, 0)
+    add("partialDeficit", _aug_as_binop(_one([s for s in par_arm if isinstance(s, ast.AugAssign) and isinstance(s.op, ast.Add)
+                                              and _tsrc(s) == v_deficit], "partial: deficit += excess")), 2)
+    add("partialExcess", _one([s for s in par_arm if isinstance(s, ast.Assign) and isinstance(s.targets[0], ast.Subscript)
+                               and _base_name(s.targets[0]) == d_excess], "partial: excess[...] = 0").value, 0)
+    # left-over accounting after the while
+    lo_s = _one([(s, p) for s, p in ds if isinstance(s, ast.Assign) and isinstance(s.value, ast.BinOp) and isinstance(s.value.op, ast.Sub)
+                 and isinstance(s.value.left, ast.Name) and s.value.left.id == p_power], "left_over of the deficit branch")
+    add("adjustCond", _cond(lo_s[1], "adjust test"), 1, "prop")
+    add("leftOver", lo_s[0].value, 2)
+    adj = [(s, p[len(lo_s[1]):]) for s, p in ds if isinstance(s, ast.AugAssign) and isinstance(s.op, ast.Add) and _tsrc(s) == v_dist
+           and p[:len(lo_s[1])] == lo_s[1]]
+    full = _one([(s, p) for s, p in adj if len(p) == 1], "first left-over branch")
+    part = _one([(s, p) for s, p in adj if len(p) == 2 and p[0][0] is full[1][0][0] and p[0][1] != full[1][0][1]],
+                "second left-over branch")
+    if len(adj) != 2:
+        raise Bad("left-over accounting: expected two `distributed += …`")
+    add("adjFullCond", _cond(full[1], "left-over test 1"), 2, "prop")
+    add("adjFullInc", full[0].value, 1)
+    add("adjPartCond", _cond(part[1], "left-over test 2", last_only=True), 1, "prop")
+    add("adjPartInc", part[0].value, 1)
     # adding the excesses
-    ex = [l for l in fors if any(_target_src(s) == "battery_power.power" for s in _assigns(l))]
-    if len(ex) != 1:
-        raise Bad("excess loop not found")
-    add("excessDistributedInc", _value_of(ex[0], "distributed_power", aug=True), 1)
-    add("excessPowerInc", _value_of(ex[0], "battery_power.power", aug=True), 1)
-    add("finalLeftOver", _value_of(ast.Module(body=[s for s in fd.body if s not in fors], type_ignores=[]), "left_over"), 2)
+    xloop = _one([l for l in all_fors if l is not loop and l is not dloop
+                  and _contains(l, lambda n: isinstance(n, ast.AugAssign) and isinstance(n.target, ast.Attribute))], "excess loop")
+    xs = _stmts_in(xloop.body)
+    add("excessDistributedInc", _one([s for s, p in xs if isinstance(s, ast.AugAssign) and isinstance(s.op, ast.Add)
+                                      and _tsrc(s) == v_dist], "excess loop: distributed +=").value, 1)
+    add("excessPowerInc", _one([s for s, p in xs if isinstance(s, ast.AugAssign) and isinstance(s.op, ast.Add)
+                                and isinstance(s.target, ast.Attribute) and s.target.attr == "power"], "excess loop: .power +=").value, 1)
+    top = [s for s, p in _stmts_in(fd.body, into_loops=False)]
+    add("finalLeftOver", _one([s for s in top if isinstance(s, ast.Assign) and isinstance(s.value, ast.BinOp)
+                               and isinstance(s.value.op, ast.Sub) and isinstance(s.value.left, ast.Name)
+                               and s.value.left.id == p_power and isinstance(s.value.right, ast.Name)
+                               and s.value.right.id == v_dist], "final left_over").value, 2)
 
     # ---- greedy
-    fg = _func(algo, "_greedy_distribute_remaining_power")
-    gif = [s for s in fg.body if isinstance(s, ast.If)]
-    if len(gif) != 1 or not any(isinstance(s, ast.Return) for s in gif[0].body):
-        raise Bad("greedy: early return changed")
-    add("greedyExit", gif[0].test, 1, "prop")
-    gl = _loops(fg, ast.For)
-    if len(gl) != 1:
-        raise Bad("greedy: loop not found")
-    gi = [s for s in gl[0].body if isinstance(s, ast.If)]  # type: ignore[attr-defined]
-    if len(gi) != 1:
-        raise Bad("greedy: loop body changed")
-    add("greedySkip", gi[0].test, 2, "prop")
-    add("greedyAdd", _value_of(gl[0], "additional_power"), 3)
-    add("greedyPowerInc", _value_of(gl[0], "power.power", aug=True), 1)
-    rem_aug = [s for s in _assigns(gl[0]) if isinstance(s, ast.AugAssign) and _target_src(s) == "remaining_power"]
-    if len(rem_aug) != 1 or not isinstance(rem_aug[0].op, ast.Sub):
-        raise Bad("greedy: remaining_power -= … changed")
-    add("greedyRemDec", rem_aug[0].value, 1)
+    fg = _norm_func(algo, "_greedy_distribute_remaining_power")
+    gs = _stmts_in(fg.body, into_loops=False)
+    gl = _one([(s, p) for s, p in gs if isinstance(s, ast.For)], "greedy loop")
+    add("greedyExit", _cond(gl[1], "greedy exit", negate=True), 1, "prop")
+    gb = _stmts_in(gl[0].body)
+    inc = _one([(s, p) for s, p in gb if isinstance(s, ast.AugAssign) and isinstance(s.op, ast.Add)
+                and isinstance(s.target, ast.Attribute)], "greedy: .power +=")
+    add("greedySkip", _cond(inc[1], "greedy skip", negate=True), 2, "prop")
+    add("greedyAdd", _one([s for s, p in gb if isinstance(s, ast.Assign) and _is_call(s.value, "min", 2)], "greedy: min(...)").value, 3)
+    add("greedyPowerInc", inc[0].value, 1)
+    add("greedyRemDec", _one([s for s, p in gb if isinstance(s, ast.AugAssign) and isinstance(s.op, ast.Sub)
+                              and isinstance(s.target, ast.Name)], "greedy: remaining -=").value, 1)
 
     # ---- multi-inverter split
-    fm = _func(algo, "_distribute_multi_inverter_pairs")
-    outer = [s for s in ast.walk(fm) if isinstance(s, ast.If) and "len(inverter_ids)" in ast.unparse(s.test)]
-    if len(outer) != 1 or ast.unparse(outer[0].test) != "len(inverter_ids) == 1":
+    fm = _norm_func(algo, "_distribute_multi_inverter_pairs")
+    ofor = _one([s for s, p in _stmts_in(fm.body, into_loops=False) if isinstance(s, ast.For)], "split: outer loop")
+    os_ = _stmts_in(ofor.body, into_loops=False)
+    ifor = _one([(s, p) for s, p in os_ if isinstance(s, ast.For)], "split: inner loop")
+    single = _one([(s, p) for s, p in os_ if isinstance(s, ast.Assign) and isinstance(s.targets[0], ast.Subscript)], "split: single-inverter arm")
+    sc = ast.unparse(_cond(single[1], "split: single test"))
+    if not (sc.startswith("len(") and sc.endswith(") == 1")) or ast.unparse(_cond(ifor[1], "split: multi test", negate=True)) != sc:
         raise Bad("split: `len(inverter_ids) == 1` changed")
-    add("splitSingle", _value_of(ast.Module(body=outer[0].body, type_ignores=[]), "new_distribution[inverter_id]"), 1)
-    add("splitStart", _value_of(ast.Module(body=outer[0].orelse, type_ignores=[]), "remaining_power", aug=False), 1)
-    il = [l for l in ast.walk(ast.Module(body=outer[0].orelse, type_ignores=[])) if isinstance(l, ast.For)]
-    if len(il) != 1:
-        raise Bad("split: inner loop not found")
-    si = [s for s in il[0].body if isinstance(s, ast.If)]
-    if len(si) != 1:
-        raise Bad("split: inner loop body changed")
-    add("splitTake", si[0].test, 2, "prop")
-    add("splitPower", _value_of(ast.Module(body=si[0].body, type_ignores=[]), "new_power"), 2)
-    add("splitAssigned", _value_of(ast.Module(body=si[0].body, type_ignores=[]), "new_distribution[inverter_id]"), 1)
-    sr = [s for s in si[0].body if isinstance(s, ast.AugAssign) and _target_src(s) == "remaining_power"]
-    if len(sr) != 1 or not isinstance(sr[0].op, ast.Sub):
-        raise Bad("split: remaining_power -= … changed")
-    add("splitRemDec", sr[0].value, 1)
-    add("splitSkipped", _value_of(ast.Module(body=si[0].orelse, type_ignores=[]), "new_distribution[inverter_id]"), 0)
+    add("splitSingle", single[0].value, 1)
+    dec = _one([(s, p) for s, p in _stmts_in(ifor[0].body) if isinstance(s, ast.AugAssign) and isinstance(s.op, ast.Sub)
+                and isinstance(s.target, ast.Name)], "split: remaining -=")
+    v_rem = _tsrc(dec[0])
+    add("splitStart", _one([s for s, p in os_ if isinstance(s, ast.Assign) and _tsrc(s) == v_rem and p == ifor[1]], "split: start").value, 1)
+    ib = _stmts_in(ifor[0].body)
+    add("splitTake", _cond(dec[1], "split: take test"), 2, "prop")
+    add("splitPower", _one([s for s, p in ib if isinstance(s, ast.Assign) and _is_call(s.value, "min", 2)], "split: min(...)").value, 2)
+    sub_as = [(s, p) for s, p in ib if isinstance(s, ast.Assign) and isinstance(s.targets[0], ast.Subscript)]
+    add("splitAssigned", _one([s for s, p in sub_as if p == dec[1]], "split: assigned power").value, 1)
+    add("splitRemDec", dec[0].value, 1)
+    add("splitSkipped", _one([s for s, p in sub_as if p != dec[1]], "split: skipped inverter").value, 0)
 
-    # ---- distribute_power (zero request)
-    fz = _func(algo, "distribute_power")
-    zi = [s for s in fz.body if isinstance(s, ast.If)]
-    if len(zi) != 2:
-        raise Bad("distribute_power: expected two ifs")
-    add("zeroRequest", zi[0].test, 1, "prop")
-    add("consumeRequest", zi[1].test, 1, "prop")
-    if not _contains_call(ast.Module(body=zi[1].body, type_ignores=[]), "self._distribute_consume_power"):
-        raise Bad("distribute_power: positive branch no longer calls _distribute_consume_power")
+    # ---- distribute_power (zero request, side selection)
+    fz = _norm_func(algo, "distribute_power")
+    zs = _stmts_in(fz.body)
+    cons = _one([(s, p) for s, p in zs if isinstance(s, ast.Return) and _contains(s, lambda n: _is_call(n, "self._distribute_consume_power"))],
+                "distribute_power: consume call")
+    supp = _one([(s, p) for s, p in zs if isinstance(s, ast.Return) and _contains(s, lambda n: _is_call(n, "self._distribute_supply_power"))],
+                "distribute_power: supply call")
+    if len(cons[1]) != 2 or len(supp[1]) != 2 or cons[1][0] != supp[1][0] or cons[1][1][0] is not supp[1][1][0]:
+        raise Bad("distribute_power: expected zero test, then side test")
+    add("zeroRequest", _cond(cons[1][:1], "zero request", negate=True), 1, "prop")
+    add("consumeRequest", _cond(cons[1], "consume request", last_only=True), 1, "prop")
 
     # ---- battery manager: reporting and admission
-    fm2 = _func(mgr, "_distribute_power")
-    add("mgrDistributed", _value_of(fm2, "distributed_power_value"), 2)
-    pf = su = None
-    for n in ast.walk(fm2):
-        if isinstance(n, ast.Call) and ast.unparse(n.func) == "PartialFailure":
-            pf = n
-        if isinstance(n, ast.Call) and ast.unparse(n.func) == "Success":
-            su = n
-    if pf is None or su is None:
-        raise Bad("manager: Success/PartialFailure construction not found")
+    fm2 = _norm_func(mgr, "_distribute_power")
+    dv = _one([s for s, p in _stmts_in(fm2.body) if isinstance(s, ast.Assign) and isinstance(s.value, ast.BinOp)
+               and isinstance(s.value.op, ast.Sub) and "as_watts()" in ast.unparse(s.value.left)], "manager: distributed value")
+    add("mgrDistributed", dv.value, 2)
+    pf = _one([n for n in ast.walk(fm2) if _is_call(n, "PartialFailure")], "PartialFailure(...)")
+    su = _one([n for n in ast.walk(fm2) if _is_call(n, "Success")], "Success(...)")
     add("mgrSuccessSucceeded", _strip_from_watts(_kwarg(su, "succeeded_power")), 1)
     add("mgrSuccessExcess", _strip_from_watts(_kwarg(su, "excess_power")), 1)
     add("mgrPartialSucceeded", _strip_from_watts(_kwarg(pf, "succeeded_power")), 2)
     add("mgrPartialFailed", _strip_from_watts(_kwarg(pf, "failed_power")), 1)
     add("mgrPartialExcess", _strip_from_watts(_kwarg(pf, "excess_power")), 1)
-    gb = _func(mgr, "_get_bounds")
-    pb = None
-    for n in ast.walk(gb):
-        if isinstance(n, ast.Call) and ast.unparse(n.func) == "PowerBounds":
-            pb = n
-    if pb is None:
-        raise Bad("_get_bounds: PowerBounds(...) not found")
+    gb2 = _func(mgr, "_get_bounds")
+    pb = _one([n for n in ast.walk(gb2) if _is_call(n, "PowerBounds")], "_get_bounds: PowerBounds(...)")
     add("advExclLower", _kwarg(pb, "exclusion_lower"), 2)
     add("advExclUpper", _kwarg(pb, "exclusion_upper"), 2)
-    cr = _func(mgr, "_check_request")
-    adj_if = [s for s in _ifs(cr) if ast.unparse(s.test) == "request.adjust_power"]
-    if len(adj_if) != 1:
-        raise Bad("_check_request: `if request.adjust_power` not found")
-    rej = [s for s in adj_if[0].body if isinstance(s, ast.If)]
-    if len(rej) != 1:
-        raise Bad("_check_request: rejection test changed")
-    add("rejectedAdjust", rej[0].test, 3, "prop")
+    cr = _norm_func(mgr, "_check_request")
+    rej = []
+    for s, p in _stmts_in(cr.body):
+        if isinstance(s, ast.Return) and _contains(s, lambda n: _is_call(n, "OutOfBounds")):
+            def is_flag(e: ast.expr) -> bool:
+                return isinstance(e, ast.Attribute) and e.attr == "adjust_power"
+
+            pols = [pol for t, pol in p if is_flag(nnf(t))] + [not pol for t, pol in p if is_flag(nnf(t, True))]
+            if pols == [True]:
+                rej.append((s, p))
+    rj = _one(rej, "_check_request: rejection with adjust_power")
+    add("rejectedAdjust", _cond(rj[1], "rejection test", last_only=True), 3, "prop")
 
     # ---- the bounds the battery pool ADVERTISES (PowerBoundsCalculator.calculate): per battery set
     pool = ast.parse((repo / POOL).read_text())
@@ -537,24 +737,26 @@ def generate(repo: pathlib.Path) -> str:
             pc = _func(n, "calculate")
     if pc is None:
         raise Bad("PowerBoundsCalculator.calculate not found")
-    for tgt, nm in (("exclusion_bounds_lower", "poolGroupExclLower"), ("exclusion_bounds_upper", "poolGroupExclUpper"),
-                    ("inclusion_bounds_lower", "poolGroupInclLower"), ("inclusion_bounds_upper", "poolGroupInclUpper")):
-        hits = [x for x in _assigns(pc) if isinstance(x, ast.AugAssign) and _target_src(x) == tgt]
-        if len(hits) != 1 or not isinstance(hits[0].op, ast.Add):
-            raise Bad(f"PowerBoundsCalculator.calculate: expected exactly one `{tgt} += …`")
-        add(nm, hits[0].value, 2)
-    inits = {_target_src(x): x.value for x in _assigns(pc) if isinstance(x, ast.Assign) and _target_src(x).endswith(("_lower", "_upper"))
-             and _target_src(x).startswith(("exclusion_bounds", "inclusion_bounds"))}
-    if {k: ast.unparse(v) for k, v in inits.items()} != {
-            "inclusion_bounds_lower": "0.0", "inclusion_bounds_upper": "0.0",
-            "exclusion_bounds_lower": "0.0", "exclusion_bounds_upper": "0.0"}:
-        raise Bad("PowerBoundsCalculator.calculate: the running bounds no longer start at 0.0")
-    if "_aggregate_battery_power_bounds(battery_bounds)" not in ast.unparse(_value_of(pc, "aggregated_bat_bounds")):
+    pstm = _stmts_in(_norm_block(pc.body))
+    sums = [s for s, p in pstm if isinstance(s, ast.AugAssign) and isinstance(s.op, ast.Add) and isinstance(s.target, ast.Name)
+            and isinstance(s.value, ast.Call) and ast.unparse(s.value.func) in ("max", "min") and len(s.value.args) == 2]
+    res = _one([n for n in ast.walk(pc) if _is_call(n, "SystemBounds") and any(k.arg == "exclusion_bounds" and not
+                (isinstance(k.value, ast.Constant) and k.value.value is None) for k in n.keywords)], "SystemBounds(...) result")
+    role_of: dict[str, str] = {}
+    for kw, nm in (("exclusion_bounds", "Excl"), ("inclusion_bounds", "Incl")):
+        b = _kwarg(res, kw)
+        if not (isinstance(b, ast.Call) and len(b.args) == 2):
+            raise Bad("SystemBounds: bounds are no longer Bounds(lower, upper)")
+        for a, lu in zip(b.args, ("Lower", "Upper")):
+            role_of[ast.unparse(_strip_from_watts(a))] = nm + lu
+    for v, role in role_of.items():
+        hit = _one([s for s in sums if _tsrc(s) == v], f"PowerBoundsCalculator.calculate: `{role} += …`")
+        init = _one([s for s, p in pstm if isinstance(s, ast.Assign) and _tsrc(s) == v], f"initial value of {role}")
+        if ast.unparse(init.value) != "0.0":
+            raise Bad("PowerBoundsCalculator.calculate: the running bounds no longer start at 0.0")
+        add("poolGroup" + role, hit.value, 2)
+    if not any(_is_call(n, "_aggregate_battery_power_bounds", 1) for n in ast.walk(pc)):
         raise Bad("PowerBoundsCalculator.calculate: battery bounds are no longer aggregated by _aggregate_battery_power_bounds")
 
     out.append("end Extracted.Dist\n")
     return "\n".join(out)
-
-
-def _raise(what: str):
-    raise Bad(f"{what} not found")
